@@ -90,8 +90,10 @@ Record vdef : Type := mkV {
 }.
 
 Record pkg : Type := mkPkg {
-  p_name : N;                  (* package name = the alias it is imported by *)
-  p_imports : list N;          (* keys of Package.Imports *)
+  p_name : N;                  (* package name = the alias it is imported by (last path element) *)
+  p_path : N;                  (* its import path: the identity of the package in the directory *)
+  p_imports : list N;          (* keys of Package.Imports: aliases *)
+  p_targets : list (N * N);    (* Package.Imports: alias -> import path (missing entry: path = alias) *)
   p_consts : list (N * nat);   (* ConstantDef: name, bits *)
   p_types : list N;            (* TypeInfo definitions: names *)
   p_vars : list vdef;          (* VariableDef *)
@@ -141,13 +143,21 @@ Definition assoc_get {B} (k : N) (l : list (N * B)) : option B :=
   match find (fun kv => N.eqb (fst kv) k) l with Some kv => Some (snd kv) | None => None end.
 
 (* the package directory *)
-Definition find_pkg (fs : list pkg) (name : N) : option pkg := find (fun p => N.eqb (p_name p) name) fs.
+Definition find_pkg (fs : list pkg) (path : N) : option pkg := find (fun p => N.eqb (p_path p) path) fs.
+
+(* name := pkg.Imports[alias] *)
+Definition import_path (p : pkg) (alias : N) : N :=
+  match assoc_get alias (p_targets p) with Some path => path | None => alias end.
 
 Definition err_not_found : N := 1.          (* "package %s not found" *)
 Definition err_imported_not_used : N := 2.  (* "imported and not used" *)
 Definition err_fuel : N := 3.               (* import depth exceeds the number of packages: not reachable *)
 
-(* compiler.go Compiler.parse (with parsePkg/tryParsePkg inlined):
+(* The package table c.packages is keyed by ALIAS: parsePkg returns the cached
+   package when the alias is already bound, whatever import path asked for it.
+   With two different import paths of the same base name in the import graph
+   the path that is parsed first owns the alias for the whole program.
+   compiler.go Compiler.parse (with parsePkg/tryParsePkg inlined):
      c.packages[pkg.Name] = pkg
      for alias, name := range pkg.Imports { if _, ok := c.packages[alias]; !ok { parse it } } *)
 Fixpoint parse (fuel : nat) (rk : msite -> N -> list N -> list N) (fs : list pkg)
@@ -163,13 +173,13 @@ Fixpoint parse (fuel : nat) (rk : msite -> N -> list N -> list N) (fs : list pkg
                match assoc_get alias pk with
                | Some _ => inl pk
                | None =>
-                   match find_pkg fs alias with
-                   | None => inr (err_not_found, alias)
+                   match find_pkg fs (import_path p alias) with
+                   | None => inr (err_not_found, import_path p alias)
                    | Some q => parse f rk fs pk q
                    end
                end
            end)
-        (rk MS_parse (p_name p) (p_imports p))
+        (rk MS_parse (p_path p) (p_imports p))
         (inl (assoc_set (p_name p) p pkgs))
   end.
 
@@ -217,7 +227,7 @@ Fixpoint pkg_init (fuel : nat) (rk : msite -> N -> list N -> list N) (pkgs : lis
                    | Some q => pkg_init f rk pkgs s q
                    end
                end)
-            (rk MS_init (p_name p) (p_imports p))
+            (rk MS_init (p_path p) (p_imports p))
             (inl st1)
         with
         | inr e => inr e
@@ -362,5 +372,5 @@ Fixpoint all_tables (ps : list pkg) : list (list (N * nat)) :=
   | [] => [[]]
   | p :: t =>
       let rest := all_tables t in
-      flat_map (fun i => map (cons (p_name p, i)) rest) (seq 0 (fact (length (p_imports p))))
+      flat_map (fun i => map (cons (p_path p, i)) rest) (seq 0 (fact (length (p_imports p))))
   end.
